@@ -20,7 +20,7 @@ Section AddrTextProofs.
   Variable segwit_dec : list N -> list N -> res (N * list N).
   Variable cash_enc : list N -> list N -> list N -> res (list N).
   Variable cash_dec : list N -> list N -> res (list N * list N).
-  Variable b32_enc_nopad : option (list N) -> list N -> list N.
+  Variable b32_enc_nopad : option (list N) -> list N -> res (list N).
   Variable b32_dec : option (list N) -> list N -> res (list N).
   Variable ss58_enc : list N -> N -> res (list N).
   Variable ss58_dec : list N -> res (N * list N).
@@ -41,8 +41,7 @@ Section AddrTextProofs.
   Hypothesis bech32_rt : forall hrp d s, bech32_enc hrp d = Ok s -> bech32_dec hrp s = Ok d.
   Hypothesis segwit_rt : forall hrp v p s, segwit_enc hrp v p = Ok s -> segwit_dec hrp s = Ok (v, p).
   Hypothesis cash_rt : forall hrp nv d s, cash_enc hrp nv d = Ok s -> cash_dec hrp s = Ok (nv, d).
-  Variable alph_ok : option (list N) -> Prop.
-  Hypothesis b32_rt : forall al d, alph_ok al -> bytes_ok d -> b32_dec al (b32_enc_nopad al d) = Ok d.
+  Hypothesis b32_rt : forall al d s, b32_enc_nopad al d = Ok s -> b32_dec al s = Ok d.
   Hypothesis ss58_rt : forall d f s, ss58_enc d f = Ok s -> ss58_dec s = Ok (f, d).
 
   Notation h160 := (hash160 sha256 ripemd160).
@@ -159,20 +158,14 @@ Section AddrTextProofs.
   Qed.
 
   (* Base32 family *)
-  Hypothesis s5_ok : forall x, bytes_ok (sha512_256 x).
-  Hypothesis b2b_ok : forall n x, bytes_ok (blake2b n x).
-  Hypothesis crc_ok : forall x, bytes_ok (crc16_xmodem x).
-
   Lemma algo_ck_len x : length (algo_checksum sha512_256 x) = algo_cklen.
   Proof. unfold algo_checksum, take_last. rewrite skipn_length, s5_len. reflexivity. Qed.
 
-  Theorem algo_decode_encode pub : alph_ok None -> bytes_ok pub ->
+  Theorem algo_decode_encode pub s : algo_encode sha512_256 b32_enc_nopad pub = Ok s ->
     length pub = (ed25519_compr_len - 1)%nat -> valid_pub 2 pub = true ->
-    algo_decode sha512_256 valid_pub b32_dec (algo_encode sha512_256 b32_enc_nopad pub) = Ok pub.
+    algo_decode sha512_256 valid_pub b32_dec s = Ok pub.
   Proof.
-    intros Ha Hb Hl Hv. unfold algo_decode, algo_encode.
-    rewrite b32_rt; auto.
-    2:{ apply bytes_ok_app; split; auto. apply bytes_ok_skipn, s5_ok. }
+    intros E Hl Hv. unfold algo_decode. unfold algo_encode in E. rewrite (b32_rt _ _ _ E).
     cbn [bind Ok]. rewrite validate_length_ok.
     2:{ rewrite app_length, algo_ck_len, Hl. reflexivity. }
     cbn [bind Ok]. unfold split_by_checksum.
@@ -183,15 +176,12 @@ Section AddrTextProofs.
   Lemma xlm_ck_len x : length (xlm_checksum crc16_xmodem x) = xlm_cklen.
   Proof. unfold xlm_checksum. rewrite rev_length, crc_len. reflexivity. Qed.
 
-  Theorem xlm_decode_encode t pub : alph_ok None -> t < 256 -> bytes_ok pub ->
+  Theorem xlm_decode_encode t pub s : xlm_encode crc16_xmodem b32_enc_nopad t pub = Ok s ->
     length pub = (ed25519_compr_len - 1)%nat -> valid_pub 2 pub = true ->
-    xlm_decode valid_pub crc16_xmodem b32_dec t (xlm_encode crc16_xmodem b32_enc_nopad t pub) = Ok pub.
+    xlm_decode valid_pub crc16_xmodem b32_dec t s = Ok pub.
   Proof.
-    intros Ha Ht Hb Hl Hv. unfold xlm_decode, xlm_encode.
-    set (payload := [t] ++ pub).
-    assert (Hp : bytes_ok payload) by (constructor; auto).
-    rewrite b32_rt; auto.
-    2:{ apply bytes_ok_app; split; auto. apply bytes_ok_rev, crc_ok. }
+    intros E Hl Hv. unfold xlm_decode. unfold xlm_encode in E.
+    set (payload := [t] ++ pub) in *. rewrite (b32_rt _ _ _ E).
     cbn [bind Ok]. rewrite validate_length_ok.
     2:{ rewrite app_length, xlm_ck_len. unfold payload. rewrite app_length, Hl. reflexivity. }
     cbn [bind Ok]. unfold split_by_checksum.
@@ -200,17 +190,19 @@ Section AddrTextProofs.
     unfold validate_checksum. fold payload. rewrite list_eqb_refl. cbn [bind Ok]. rewrite Hv. reflexivity.
   Qed.
 
-  Theorem fil_decode_encode pub_u : alph_ok (Some fil_alphabet) ->
-    fil_decode blake2b b32_dec (fil_encode blake2b b32_enc_nopad pub_u) = Ok (blake2b blake2b160_len pub_u).
+  Theorem fil_decode_encode pub_u s : fil_encode blake2b b32_enc_nopad pub_u = Ok s ->
+    fil_decode blake2b b32_dec s = Ok (blake2b blake2b160_len pub_u).
   Proof.
-    intros Ha. unfold fil_decode, fil_encode.
-    set (h := blake2b blake2b160_len pub_u).
+    unfold fil_encode. set (h := blake2b blake2b160_len pub_u).
+    destruct (b32_enc_nopad (Some fil_alphabet) (h ++ fil_checksum blake2b fil_secp_type h)) as [e|] eqn:E;
+      cbn [bind Ok]; [|discriminate].
+    intros H. assert (Hs : s = fil_prefix ++ [48 + fil_secp_type] ++ e) by (unfold Ok in H; congruence).
+    subst s. clear H. unfold fil_decode.
     rewrite remove_prefix_app. cbn [bind Ok app].
     assert (T : Z.eqb (Z.of_N (48 + fil_secp_type) - 48) (Z.of_N fil_secp_type) = true) by (vm_compute; reflexivity).
     rewrite T. cbn [negb].
     assert (Hck : length (fil_checksum blake2b fil_secp_type h) = blake2b32_len) by apply b2b_len.
-    rewrite b32_rt; auto.
-    2:{ apply bytes_ok_app; split; apply b2b_ok. }
+    rewrite (b32_rt _ _ _ E).
     cbn [bind Ok]. rewrite validate_length_ok.
     2:{ rewrite app_length, Hck. unfold h. rewrite b2b_len. reflexivity. }
     cbn [bind Ok]. unfold split_by_checksum.
@@ -219,26 +211,23 @@ Section AddrTextProofs.
   Qed.
 
   (* Nano: the three zero pad bytes encode to the four pad symbols, which are cut off and put back *)
-  Hypothesis nano_pad_law : forall x, bytes_ok x ->
-    firstn (length nano_pad_enc) (b32_enc_nopad (Some nano_alphabet) (nano_pad_dec ++ x)) = nano_pad_enc.
+  Hypothesis nano_pad_law : forall x e, b32_enc_nopad (Some nano_alphabet) (nano_pad_dec ++ x) = Ok e ->
+    firstn (length nano_pad_enc) e = nano_pad_enc.
 
-  Theorem nano_decode_encode pub : alph_ok (Some nano_alphabet) -> bytes_ok pub ->
+  Theorem nano_decode_encode pub s : nano_encode blake2b b32_enc_nopad pub = Ok s ->
     length pub = (ed25519_compr_len - 1)%nat -> valid_pub 3 pub = true ->
-    nano_decode blake2b valid_pub b32_dec (nano_encode blake2b b32_enc_nopad pub) = Ok pub.
+    nano_decode blake2b valid_pub b32_dec s = Ok pub.
   Proof.
-    intros Ha Hb Hl Hv. unfold nano_decode, nano_encode.
-    set (body := pub ++ nano_checksum blake2b pub).
+    unfold nano_encode. set (body := pub ++ nano_checksum blake2b pub).
+    destruct (b32_enc_nopad (Some nano_alphabet) (nano_pad_dec ++ body)) as [e|] eqn:E; cbn [bind Ok]; [|discriminate].
+    intros H Hl Hv. assert (Hs : s = nano_prefix ++ skipn (length nano_pad_enc) e) by (unfold Ok in H; congruence).
+    subst s. clear H. unfold nano_decode.
     assert (Hck : length (nano_checksum blake2b pub) = blake2b40_len).
     { unfold nano_checksum. rewrite rev_length. apply b2b_len. }
-    assert (Hbody : bytes_ok body).
-    { apply bytes_ok_app; split; auto. apply bytes_ok_rev, b2b_ok. }
     rewrite remove_prefix_app. cbn [bind Ok].
-    set (e := b32_enc_nopad (Some nano_alphabet) (nano_pad_dec ++ body)).
-    assert (E : nano_pad_enc ++ skipn (length nano_pad_enc) e = e).
-    { pose proof (nano_pad_law body Hbody) as P. fold e in P. rewrite <- P at 1. apply firstn_skipn. }
-    change (pub ++ nano_checksum blake2b pub) with body. fold e. rewrite E. unfold e.
-    rewrite b32_rt; auto.
-    2:{ apply bytes_ok_app; split; auto. vm_compute. repeat constructor. }
+    assert (Ee : nano_pad_enc ++ skipn (length nano_pad_enc) e = e).
+    { pose proof (nano_pad_law _ _ E) as P. rewrite <- P at 1. apply firstn_skipn. }
+    rewrite Ee. rewrite (b32_rt _ _ _ E).
     cbn [bind Ok]. rewrite validate_length_ok.
     2:{ rewrite app_length. unfold body. rewrite app_length, Hck, Hl. vm_compute. reflexivity. }
     cbn [bind Ok]. rewrite skipn_app, Nat.sub_diag, skipn_all. cbn [app skipn].
